@@ -571,4 +571,418 @@ theorem splitS_swf {S : Id → Option Struct} {Tk : Id → Bool} {root : Option 
           simp only [q1, q2, h1, h2, if_false]
           omega
 
+/-! ### attaching a new leaf `cid` below `pid` -/
+
+theorem addLeafS_swf {S : Id → Option Struct} {Tk : Id → Bool} {root : Option Id}
+    (h : SWF S Tk root) (cid pid : Id) (pp : Option Id) (pch : List Id)
+    (hP : S pid = some (pp, pch)) (hc : S cid = none) :
+    SWF (fun k => if k = cid then some (some pid, []) else if k = pid then some (pp, pch ++ [cid]) else S k)
+      (fun k => k == cid || Tk k) root := by
+  have hcp : cid ≠ pid := by intro e; rw [e, hP] at hc; simp at hc
+  have hpc : pid ≠ cid := fun e => hcp e.symm
+  have hne : ∀ k s, S k = some s → k ≠ cid := by
+    intro k s hk e; rw [e, hc] at hk; simp at hk
+  have hcid_notin : cid ∉ pch := by
+    intro hm
+    obtain ⟨cch, e⟩ := h.down pid pp pch cid hP hm
+    rw [hc] at e; simp at e
+  refine ⟨?_, ?_, ?_, ?_, ?_, ?_, ?_⟩
+  · intro k
+    by_cases h1 : k = cid
+    · simp [h1]
+    · have b1 : (k == cid) = false := by simpa using h1
+      by_cases h2 : k = pid
+      · simp [h1, h2, hpc, ← h.keys pid, hP]
+      · simp [h1, h2, b1, h.keys k]
+  · obtain ⟨r, rch, hr, hSr⟩ := h.root_ok
+    have hrc : r ≠ cid := hne r _ hSr
+    by_cases hrp : r = pid
+    · rw [hrp, hP] at hSr
+      simp at hSr
+      exact ⟨r, pch ++ [cid], hr, by rw [hrp]; simp [hpc, hSr.1]⟩
+    · exact ⟨r, rch, hr, by simp [hrc, hrp, hSr]⟩
+  · intro k ch hk
+    by_cases h1 : k = cid
+    · simp [h1] at hk
+    · by_cases h2 : k = pid
+      · simp [h1, h2, hpc] at hk
+        exact h.root_uniq k pch (by rw [h2, hP, hk.1])
+      · simp [h1, h2] at hk
+        exact h.root_uniq k ch hk
+  · intro k p ch hk
+    by_cases h1 : k = cid
+    · simp [h1] at hk
+      obtain ⟨rfl, _⟩ := hk
+      exact ⟨pp, pch ++ [cid], by simp [hpc], by simp [h1]⟩
+    · have key : ∀ ch0, S k = some (some p, ch0) →
+          ∃ pp' pch', (if p = cid then some (some pid, []) else if p = pid then some (pp, pch ++ [cid]) else S p) =
+            some (pp', pch') ∧ k ∈ pch' := by
+        intro ch0 hk0
+        obtain ⟨pp0, pch0, hp0, hm⟩ := h.up k p ch0 hk0
+        have hp1 : p ≠ cid := hne p _ hp0
+        by_cases hp2 : p = pid
+        · rw [hp2, hP] at hp0; simp at hp0
+          exact ⟨pp, pch ++ [cid], by rw [hp2]; simp [hpc], by rw [hp0.2]; simp [hm]⟩
+        · exact ⟨pp0, pch0, by simp [hp1, hp2, hp0], hm⟩
+      by_cases h2 : k = pid
+      · simp [h1, h2, hpc] at hk
+        exact key pch (by rw [h2, hP, hk.1])
+      · simp [h1, h2] at hk
+        exact key ch hk
+  · intro k pp' ch c hk hcm
+    have key : ∀ ch0, S k = some (pp', ch0) → c ∈ ch0 →
+        ∃ cch, (if c = cid then some (some pid, []) else if c = pid then some (pp, pch ++ [cid]) else S c) =
+          some (some k, cch) := by
+      intro ch0 hk0 hm
+      obtain ⟨cch, hcS⟩ := h.down k pp' ch0 c hk0 hm
+      have c1 : c ≠ cid := hne c _ hcS
+      by_cases c2 : c = pid
+      · rw [c2, hP] at hcS; simp at hcS
+        exact ⟨pch ++ [cid], by rw [c2]; simp [hpc, hcS.1]⟩
+      · exact ⟨cch, by simp [c1, c2, hcS]⟩
+    by_cases h1 : k = cid
+    · simp [h1] at hk
+      obtain ⟨_, rfl⟩ := hk
+      simp at hcm
+    · by_cases h2 : k = pid
+      · simp [h1, h2, hpc] at hk
+        obtain ⟨e1, rfl⟩ := hk
+        rcases List.mem_append.mp hcm with hm | hm
+        · exact key pch (by rw [h2, hP, e1]) hm
+        · simp at hm
+          exact ⟨[], by simp [hm, h2]⟩
+      · simp [h1, h2] at hk
+        exact key ch hk hcm
+  · intro k pp' ch hk
+    by_cases h1 : k = cid
+    · simp [h1] at hk
+      obtain ⟨_, rfl⟩ := hk
+      simp
+    · by_cases h2 : k = pid
+      · simp [h1, h2, hpc] at hk
+        obtain ⟨_, rfl⟩ := hk
+        rw [List.nodup_append]
+        refine ⟨h.nodup pid pp pch hP, by simp, ?_⟩
+        intro a ha b hb e
+        simp at hb
+        exact hcid_notin (by rw [← hb, ← e]; exact ha)
+      · simp [h1, h2] at hk
+        exact h.nodup k pp' ch hk
+  · obtain ⟨dp, hd⟩ := h.depth
+    refine ⟨fun k => if k = cid then dp pid + 1 else dp k, ?_⟩
+    intro k p ch hk
+    by_cases h1 : k = cid
+    · simp [h1] at hk
+      obtain ⟨rfl, _⟩ := hk
+      simp [h1, hpc]
+    · have key : ∀ ch0, S k = some (some p, ch0) → (if p = cid then dp pid + 1 else dp p) < dp k := by
+        intro ch0 hk0
+        obtain ⟨pp0, pch0, hp0, _⟩ := h.up k p ch0 hk0
+        have hp1 : p ≠ cid := hne p _ hp0
+        simp only [hp1, if_false]
+        exact hd k p ch0 hk0
+      simp only [h1, if_false]
+      by_cases h2 : k = pid
+      · simp [h1, h2, hpc] at hk
+        exact key pch (by rw [h2, hP, hk.1])
+      · simp [h1, h2] at hk
+        exact key ch hk
+
+/-! ### renaming the node `old` to the unused identifier `new` -/
+
+def renId (old new : Id) (c : Id) : Id := if c = old then new else c
+
+def renameRen (old new : Id) (s : Struct) : Struct :=
+  (s.1.map (renId old new), s.2.map (renId old new))
+
+def renameS (S : Id → Option Struct) (old new : Id) : Id → Option Struct :=
+  fun k => if k = new then (S old).map (renameRen old new)
+           else if k = old then none else (S k).map (renameRen old new)
+
+theorem renameS_swf {S : Id → Option Struct} {Tk : Id → Bool} {root : Option Id}
+    (h : SWF S Tk root) (old new : Id) (op : Option Id) (och : List Id)
+    (hO : S old = some (op, och)) (hne : new ≠ old) (hnew : S new = none) :
+    SWF (renameS S old new) (fun k => k == new || (Tk k && k != old))
+      (if op = none then some new else root) := by
+  have hon : old ≠ new := fun e => hne e.symm
+  have hnode_ne : ∀ k s, S k = some s → k ≠ new := by
+    intro k s hk e; rw [e, hnew] at hk; simp at hk
+  -- image of an existing node
+  have himg : ∀ k0 s, S k0 = some s → renameS S old new (renId old new k0) = some (renameRen old new s) := by
+    intro k0 s hk
+    by_cases e : k0 = old
+    · subst e; simp [renId, renameS, hk]
+    · have : k0 ≠ new := hnode_ne k0 s hk
+      simp [renId, renameS, e, this, hk]
+  -- every node of the new structure is such an image
+  have hpre : ∀ k s', renameS S old new k = some s' →
+      ∃ k0 s, S k0 = some s ∧ s' = renameRen old new s ∧ k = renId old new k0 := by
+    intro k s' hk
+    unfold renameS at hk
+    by_cases h1 : k = new
+    · simp only [h1, if_true] at hk
+      rw [hO] at hk; simp at hk
+      exact ⟨old, (op, och), hO, hk.symm, by simp [renId, h1]⟩
+    · simp only [h1, if_false] at hk
+      by_cases h2 : k = old
+      · simp [h2] at hk
+      · simp only [h2, if_false] at hk
+        cases hs : S k with
+        | none => rw [hs] at hk; simp at hk
+        | some s => rw [hs] at hk; simp at hk; exact ⟨k, s, hs, hk.symm, by simp [renId, h2]⟩
+  have hinj : ∀ a b sa sb, S a = some sa → S b = some sb → renId old new a = renId old new b → a = b := by
+    intro a b sa sb ha hb e
+    unfold renId at e
+    by_cases e1 : a = old <;> by_cases e2 : b = old
+    · rw [e1, e2]
+    · simp [e1, e2] at e; exact absurd e.symm (hnode_ne b sb hb)
+    · simp [e1, e2] at e; exact absurd e (hnode_ne a sa ha)
+    · simpa [e1, e2] using e
+  refine ⟨?_, ?_, ?_, ?_, ?_, ?_, ?_⟩
+  · intro k
+    unfold renameS
+    by_cases h1 : k = new
+    · simp [h1, hO]
+    · have b1 : (k == new) = false := by simpa using h1
+      by_cases h2 : k = old
+      · have : (k != old) = false := by simp [h2]
+        simp [h1, h2, hon]
+      · have b2 : (k != old) = true := by simpa using h2
+        simp [h1, h2, b1, b2, ← h.keys k]
+  · obtain ⟨r, rch, hr, hSr⟩ := h.root_ok
+    have := himg r _ hSr
+    by_cases hop : op = none
+    · rw [if_pos hop]
+      have hro : root = some old := h.root_uniq old och (by rw [hO, hop])
+      rw [hr] at hro; simp at hro; subst hro
+      exact ⟨new, rch.map (renId r new), rfl, by simpa [renId, renameRen] using this⟩
+    · rw [if_neg hop]
+      have hro : r ≠ old := by intro e; rw [e, hO] at hSr; simp at hSr; exact hop hSr.1
+      exact ⟨r, rch.map (renId old new), hr, by simpa [renId, renameRen, hro] using this⟩
+  · intro k ch hk
+    obtain ⟨k0, s, hs, e1, e2⟩ := hpre k _ hk
+    obtain ⟨pp, ch0⟩ := s
+    simp only [renameRen, Prod.mk.injEq] at e1
+    have hpp : pp = none := by
+      cases pp with
+      | none => rfl
+      | some p => simp at e1
+    subst hpp
+    have hroot := h.root_uniq k0 ch0 hs
+    by_cases hop : op = none
+    · rw [if_pos hop]
+      have hro : root = some old := h.root_uniq old och (by rw [hO, hop])
+      rw [hroot] at hro; simp at hro
+      rw [e2, hro]; simp [renId]
+    · rw [if_neg hop]
+      have : k0 ≠ old := by intro e; rw [e, hO] at hs; simp at hs; exact hop hs.1
+      rw [e2, hroot]; simp [renId, this]
+  · intro k p' ch' hk
+    obtain ⟨k0, s, hs, e1, e2⟩ := hpre k _ hk
+    obtain ⟨pp, ch0⟩ := s
+    simp only [renameRen, Prod.mk.injEq] at e1
+    cases pp with
+    | none => simp at e1
+    | some p0 =>
+      simp at e1
+      obtain ⟨pp0, pch0, hp0, hm⟩ := h.up k0 p0 ch0 hs
+      have := himg p0 _ hp0
+      rw [e1.1] 
+      refine ⟨_, _, this, ?_⟩
+      simp only [renameRen]
+      rw [e2]
+      exact List.mem_map.mpr ⟨k0, hm, rfl⟩
+  · intro k pp' ch' c hk hc
+    obtain ⟨k0, s, hs, e1, e2⟩ := hpre k _ hk
+    obtain ⟨pp, ch0⟩ := s
+    simp only [renameRen, Prod.mk.injEq] at e1
+    rw [e1.2] at hc
+    obtain ⟨c0, hc0, hcc⟩ := List.mem_map.mp hc
+    obtain ⟨cch, hcS⟩ := h.down k0 pp ch0 c0 hs hc0
+    have := himg c0 _ hcS
+    rw [← hcc, e2]
+    exact ⟨cch.map (renId old new), by simpa [renameRen] using this⟩
+  · intro k pp' ch' hk
+    obtain ⟨k0, s, hs, e1, e2⟩ := hpre k _ hk
+    obtain ⟨pp, ch0⟩ := s
+    simp only [renameRen, Prod.mk.injEq] at e1
+    rw [e1.2]
+    apply map_ite_nodup _ _ _ (h.nodup k0 pp ch0 hs)
+    intro hm
+    obtain ⟨cch, hcS⟩ := h.down k0 pp ch0 new hs hm
+    rw [hnew] at hcS; simp at hcS
+  · obtain ⟨dp, hd⟩ := h.depth
+    refine ⟨fun k => if k = new then dp old else dp k, ?_⟩
+    have hdp : ∀ k0 s, S k0 = some s → (if renId old new k0 = new then dp old else dp (renId old new k0)) = dp k0 := by
+      intro k0 s hk
+      by_cases e : k0 = old
+      · simp [renId, e]
+      · have : k0 ≠ new := hnode_ne k0 s hk
+        simp [renId, e, this]
+    intro k p' ch' hk
+    obtain ⟨k0, s, hs, e1, e2⟩ := hpre k _ hk
+    obtain ⟨pp, ch0⟩ := s
+    simp only [renameRen, Prod.mk.injEq] at e1
+    cases pp with
+    | none => simp at e1
+    | some p0 =>
+      simp at e1
+      obtain ⟨pp0, pch0, hp0, _⟩ := h.up k0 p0 ch0 hs
+      rw [e1.1, e2]
+      show (if renId old new p0 = new then dp old else dp (renId old new p0)) <
+        (if renId old new k0 = new then dp old else dp (renId old new k0))
+      rw [hdp k0 _ hs, hdp p0 _ hp0]
+      exact hd k0 p0 ch0 hs
+
+/-! ### subdividing the edge `p – c` by the new node `new` -/
+
+def subdivideS (S : Id → Option Struct) (c p new : Id) (cch : List Id) (pp : Option Id) (pch : List Id) :
+    Id → Option Struct :=
+  fun k => if k = new then some (some p, [c])
+           else if k = c then some (some new, cch)
+           else if k = p then some (pp, pch.map (fun x => if x = c then new else x))
+           else S k
+
+theorem subdivideS_swf {S : Id → Option Struct} {Tk : Id → Bool} {root : Option Id}
+    (h : SWF S Tk root) (c p new : Id) (cch : List Id) (pp : Option Id) (pch : List Id)
+    (hC : S c = some (some p, cch)) (hP : S p = some (pp, pch)) (hnew : S new = none) :
+    SWF (subdivideS S c p new cch pp pch) (fun k => k == new || Tk k) root := by
+  have hpc : p ≠ c := h.parent_ne hC
+  have hcp : c ≠ p := fun e => hpc e.symm
+  have hne : ∀ k s, S k = some s → k ≠ new := by
+    intro k s hk e; rw [e, hnew] at hk; simp at hk
+  have hcn : c ≠ new := hne c _ hC
+  have hpn : p ≠ new := hne p _ hP
+  have hc_in : c ∈ pch := by
+    obtain ⟨pp', pch', e1, e2⟩ := h.up c p cch hC
+    rw [hP] at e1; simp at e1; rw [e1.2]; exact e2
+  have hnew_notin : ∀ k pp' ch, S k = some (pp', ch) → new ∉ ch := by
+    intro k pp' ch hk hm
+    obtain ⟨x, e⟩ := h.down k pp' ch new hk hm
+    rw [hnew] at e; simp at e
+  have hSn : subdivideS S c p new cch pp pch new = some (some p, [c]) := by simp [subdivideS]
+  have hSc : subdivideS S c p new cch pp pch c = some (some new, cch) := by simp [subdivideS, hcn]
+  have hSp : subdivideS S c p new cch pp pch p =
+      some (pp, pch.map (fun x => if x = c then new else x)) := by simp [subdivideS, hpn, hpc]
+  have hSo : ∀ k, k ≠ new → k ≠ c → k ≠ p → subdivideS S c p new cch pp pch k = S k := by
+    intro k h1 h2 h3; simp [subdivideS, h1, h2, h3]
+  have hcases : ∀ k s', subdivideS S c p new cch pp pch k = some s' →
+      (k = new ∧ s' = (some p, [c])) ∨ (k = c ∧ s' = (some new, cch)) ∨
+      (k = p ∧ s' = (pp, pch.map (fun x => if x = c then new else x))) ∨
+      (k ≠ new ∧ k ≠ c ∧ k ≠ p ∧ S k = some s') := by
+    intro k s' hk
+    by_cases h1 : k = new
+    · left; subst h1; rw [hSn] at hk; simp at hk; exact ⟨rfl, hk.symm⟩
+    · by_cases h2 : k = c
+      · right; left; subst h2; rw [hSc] at hk; simp at hk; exact ⟨rfl, hk.symm⟩
+      · by_cases h3 : k = p
+        · right; right; left; subst h3; rw [hSp] at hk; simp at hk; exact ⟨rfl, hk.symm⟩
+        · right; right; right; rw [hSo k h1 h2 h3] at hk; exact ⟨h1, h2, h3, hk⟩
+  -- an existing node k ∉ {c, p} seen in the new structure
+  have hsame : ∀ k s, S k = some s → k ≠ c → k ≠ p → subdivideS S c p new cch pp pch k = some s := by
+    intro k s hk h2 h3; rw [hSo k (hne k s hk) h2 h3, hk]
+  refine ⟨?_, ?_, ?_, ?_, ?_, ?_, ?_⟩
+  · intro k
+    by_cases h1 : k = new
+    · subst h1; simp [hSn]
+    · have b1 : (k == new) = false := by simpa using h1
+      by_cases h2 : k = c
+      · subst h2; simp [hSc, b1, ← h.keys k, hC]
+      · by_cases h3 : k = p
+        · subst h3; simp [hSp, b1, ← h.keys k, hP]
+        · rw [hSo k h1 h2 h3]; simp [b1, h.keys k]
+  · obtain ⟨r, rch, hr, hSr⟩ := h.root_ok
+    have hrc : r ≠ c := by intro e; rw [e, hC] at hSr; simp at hSr
+    by_cases hrp : r = p
+    · rw [hrp, hP] at hSr; simp at hSr
+      exact ⟨r, _, hr, by rw [hrp, hSp, hSr.1]⟩
+    · exact ⟨r, rch, hr, hsame r _ hSr hrc hrp⟩
+  · intro k ch hk
+    rcases hcases k _ hk with ⟨_, e⟩ | ⟨_, e⟩ | ⟨e1, e⟩ | ⟨_, _, _, e⟩
+    · simp at e
+    · simp at e
+    · simp at e
+      exact h.root_uniq k pch (by rw [e1, hP, ← e.1])
+    · exact h.root_uniq k ch e
+  · intro k q ch hk
+    rcases hcases k _ hk with ⟨e1, e⟩ | ⟨e1, e⟩ | ⟨e1, e⟩ | ⟨n1, n2, n3, e⟩
+    · simp at e
+      rw [e1, e.1]
+      exact ⟨pp, _, hSp, List.mem_map.mpr ⟨c, hc_in, by simp⟩⟩
+    · simp at e
+      rw [e1, e.1]
+      exact ⟨some p, [c], hSn, by simp⟩
+    · simp at e
+      have hPq : S p = some (some q, pch) := by rw [hP, ← e.1]
+      obtain ⟨gpp, gch, hg, hm⟩ := h.up p q pch hPq
+      have g1 : q ≠ p := h.parent_ne hPq
+      have g2 : q ≠ c := by intro e'; rw [e'] at hPq; exact h.no_two_cycle hPq hC
+      rw [e1]
+      exact ⟨gpp, gch, hsame q _ hg g2 g1, hm⟩
+    · obtain ⟨qpp, qch, hq, hm⟩ := h.up k q ch e
+      by_cases q1 : q = c
+      · rw [q1, hC] at hq; simp at hq
+        rw [q1]; exact ⟨some new, cch, hSc, by rw [hq.2]; exact hm⟩
+      · by_cases q2 : q = p
+        · rw [q2, hP] at hq; simp at hq
+          rw [q2]
+          refine ⟨pp, _, hSp, List.mem_map.mpr ⟨k, by rw [hq.2]; exact hm, by simp [n2]⟩⟩
+        · exact ⟨qpp, qch, hsame q _ hq q1 q2, hm⟩
+  · intro k pp' ch x hk hx
+    rcases hcases k _ hk with ⟨e1, e⟩ | ⟨e1, e⟩ | ⟨e1, e⟩ | ⟨n1, n2, n3, e⟩
+    · simp at e
+      rw [e.2] at hx; simp at hx
+      rw [hx, e1]; exact ⟨cch, hSc⟩
+    · simp at e
+      rw [e.2] at hx
+      obtain ⟨xch, hxS⟩ := h.down c (some p) cch x hC hx
+      have x1 : x ≠ c := fun e' => by rw [e'] at hxS; exact h.parent_ne hxS rfl
+      have x2 : x ≠ p := by intro e'; rw [e'] at hxS; exact h.no_two_cycle hxS hC
+      rw [e1]; exact ⟨xch, hsame x _ hxS x1 x2⟩
+    · simp at e
+      rw [e.2] at hx
+      obtain ⟨x0, hx0, hxx⟩ := List.mem_map.mp hx
+      by_cases hx0c : x0 = c
+      · simp [hx0c] at hxx
+        rw [← hxx, e1]; exact ⟨[c], hSn⟩
+      · simp [hx0c] at hxx
+        rw [← hxx]
+        obtain ⟨xch, hxS⟩ := h.down p pp pch x0 hP hx0
+        have x2 : x0 ≠ p := fun e' => by rw [e'] at hxS; exact h.parent_ne hxS rfl
+        rw [e1]; exact ⟨xch, hsame x0 _ hxS hx0c x2⟩
+    · obtain ⟨xch, hxS⟩ := h.down k pp' ch x e hx
+      by_cases x1 : x = c
+      · rw [x1, hC] at hxS; simp at hxS; exact absurd hxS.1.symm n3
+      · by_cases x2 : x = p
+        · rw [x2, hP] at hxS; simp at hxS
+          rw [x2]; exact ⟨_, by rw [hSp, hxS.1]⟩
+        · exact ⟨xch, hsame x _ hxS x1 x2⟩
+  · intro k pp' ch hk
+    rcases hcases k _ hk with ⟨e1, e⟩ | ⟨e1, e⟩ | ⟨e1, e⟩ | ⟨n1, n2, n3, e⟩
+    · simp at e; rw [e.2]; simp
+    · simp at e; rw [e.2]; exact h.nodup c _ _ hC
+    · simp at e; rw [e.2]
+      apply map_ite_nodup _ _ _ (h.nodup p _ _ hP)
+      intro hm
+      exact absurd hm (hnew_notin p pp pch hP)
+    · exact h.nodup k pp' ch e
+  · obtain ⟨dp, hd⟩ := h.depth
+    refine ⟨fun k => if k = new then 2 * dp p + 1 else 2 * dp k, ?_⟩
+    intro k q ch hk
+    have hdpc := hd c p cch hC
+    rcases hcases k _ hk with ⟨e1, e⟩ | ⟨e1, e⟩ | ⟨e1, e⟩ | ⟨n1, n2, n3, e⟩
+    · simp at e
+      rw [e1, e.1]; simp [hpn]
+    · simp at e
+      rw [e1, e.1]; simp [hcn]; omega
+    · simp at e
+      have hPq : S p = some (some q, pch) := by rw [hP, ← e.1]
+      obtain ⟨gpp, gch, hg, _⟩ := h.up p q pch hPq
+      have := hd p q pch hPq
+      rw [e1]
+      simp [hpn, hne q _ hg]; omega
+    · obtain ⟨qpp, qch, hq, _⟩ := h.up k q ch e
+      have := hd k q ch e
+      simp [n1, hne q _ hq]; omega
+
 end Ptn.C02
